@@ -62,7 +62,7 @@ USERS_AWK = ["u;v:p;q@", "u;@"]
 HOSTS = ["h1", "h2", "h3", "a.example.com", "10.0.0.1", "[::1]", "[fe80::1%25eth0]", "H1", "h,1", "h1:80", "h1:8080", "h2:", "[::1]:443",
          "x_y", "h(1)"]
 HOSTS_AWK = ["h;1", "h\"1", "h<1>"]
-PATHS = ["", "/", "/p", "/p1", "/px", "/a b", "/a%20b", "/p|q", "/p,q", "/%7Cx", "/a%2Fb", "/%C3%A9", "/p:q@r", "/a/b/c", "/p%3Fq", "/p%23q",
+PATHS = ["/files%2Fv1", "/files/v1", "/%41b", "/Ab", "/a%2fb", "/p%7cq", "", "/", "/p", "/p1", "/px", "/a b", "/a%20b", "/p|q", "/p,q", "/%7Cx", "/a%2Fb", "/%C3%A9", "/p:q@r", "/a/b/c", "/p%3Fq", "/p%23q",
          "/a+b", "/%2525", "/p=1&q=2", "/~u/", "//double", "/p'q", "/(x)", "/[x]", "/a%5Bb", "/tr%C3"]
 PATHS_AWK = ["/p;x", "/p;", "/a\"b", "/a\\b", "/p;x,y z", "/\xe9"]
 QUERIES = ["", "", "", "?q=1", "?a=1|2", "?a b", "?a,b", "?|9999999999", "?x=%41", "?", "?a|5", "?q=1&r=2", "?a=1|1577836803", "?u=http://x/y"]
@@ -87,6 +87,37 @@ def gen_url(rng, awkward):
     if awkward:
         users, hosts, paths, queries = USERS + USERS_AWK, HOSTS + HOSTS_AWK, PATHS + PATHS_AWK * 3, QUERIES + QUERIES_AWK * 2
     return rng.choice(SCHEMES) + "://" + rng.choice(users) + rng.choice(hosts) + rng.choice(paths) + rng.choice(queries) + rng.choice(FRAGS)
+
+
+def respell(rng, path):
+    """another spelling of the same decoded path: %2F <-> /, a letter or digit as %XX, hex digits in the other case"""
+    for _ in range(4):
+        k = rng.random()
+        if k < 0.3 and re.search(r"%2[Ff]", path):
+            return re.sub(r"%2[Ff]", "/", path, count=1)
+        if k < 0.55:
+            m = list(re.finditer(r"%[0-9A-Fa-f]{2}", path))
+            if m:
+                e = rng.choice(m)
+                t = e.group(0).lower() if e.group(0) != e.group(0).lower() else e.group(0).upper()
+                if t != e.group(0):
+                    return path[:e.start()] + t + path[e.end():]
+        # positions of plain letters/digits/slashes that are not part of an escape
+        pos = [i for i, c in enumerate(path) if (c.isalnum() and c.isascii() or (c == "/" and i > 0)) and not (i >= 1 and path[i - 1] == "%") and not (i >= 2 and path[i - 2] == "%")]
+        if pos:
+            i = rng.choice(pos)
+            return path[:i] + ("%%%02X" if rng.random() < 0.5 else "%%%02x") % ord(path[i]) + path[i + 1:]
+    return path
+
+
+def sibling(rng, leaf):
+    """a codec of the same kind with another salt / another key: a foreign balancer's"""
+    if leaf.startswith("hash:"):
+        return "hash:" + rng.choice([x for x in SALTS + ["other"] if "hash:" + x != leaf])
+    if leaf.startswith("aes:"):
+        k = int(leaf.split(":")[1])
+        return "aes:%d:%s" % (rng.choice([x for x in (1, 2, 3, 4) if x != k]), leaf.split(":")[2])
+    return rng.choice(["hash:s1", "aes:1:0"])
 
 
 def gen_codec(rng, depth=2):
@@ -121,17 +152,32 @@ def gen_scenario(rng, awkward, n_ops):
             # same key, other userinfo/query: an update, not a second member
             base = rng.choice(urls)
             m = re.match(r"^([A-Za-z0-9+.-]+://)(?:[^/@]*@)?([^/?#]*)([^?#]*)", base)
-            if m:
+            if m and rng.random() < 0.5:
                 u = m.group(1) + rng.choice(USERS) + m.group(2) + m.group(3) + rng.choice(QUERIES)
+            elif m and m.group(3):
+                # same scheme, host and DECODED path, other escaping: still the same server
+                u = m.group(1) + rng.choice(USERS[:6]) + m.group(2) + respell(rng, m.group(3)) + rng.choice(QUERIES[:5])
         urls.append(u)
     for u in urls:
         w = rng.choice(["", "", " 1", " 2", " 3", " 5", " 0"])
         lines.append("upsert " + esc(u) + w)
     lines.append("servers")
     now = 0
+
+    def mint():
+        k = rng.random()
+        spec = sibling(rng, minter(codec)) if k < 0.45 else minter(codec) if k < 0.65 else gen_codec(rng, 1)
+        lines.append("mint %s %s" % (spec, esc(rng.choice(urls))))
+        if rng.random() < 0.75:
+            lines.append("req cookie=@1")
+
+    if rng.random() < 0.15:
+        mint()      # the foreign balancer is the first to see the server
     for _ in range(n_ops):
         r = rng.random()
-        if r < 0.62:
+        if r < 0.07:
+            mint()
+        elif r < 0.62:
             c = rng.random()
             if c < 0.2:
                 lines.append("req cookie=none")
@@ -193,7 +239,7 @@ def gen(rng, tier):
     for i in range(n_scen // 50):
         lines = gen_scenario(rng, False, 10)
         for _ in range(3):
-            lines.insert(rng.randint(1, len(lines)), rng.choice(["req", "req cookie=@0", "req cookie=@x", "upsert", "upsert http://h1 x", "codec fb(raw", "codec",
+            lines.insert(rng.randint(1, len(lines)), rng.choice(["mint", "mint raw", "mint fb(raw http://h1/", "mint hash:x http://h%201/", "req", "req cookie=@0", "req cookie=@x", "upsert", "upsert http://h1 x", "codec fb(raw", "codec",
                                                                  "adv x", "frob", "req cookie=@1 t=flip:1:9", "req cookie=@1 t=zap", "req cookie=raw:%z", "remove a b",
                                                                  "codec aes::5", "codec hash:%4"]))
         yield lines
@@ -221,6 +267,11 @@ def exhaustive(tier):
 
 BASE_UNIX_NS = 1577836800 * 10**9
 REQ = re.compile(r"^(served|rejected) (\S*) set=(\S+)$")
+
+
+def family(leaf):
+    """which secret a leaf codec's values depend on: raw | hash:<salt> | aes:<key>"""
+    return "aes:" + leaf.split(":")[1] if leaf.startswith("aes:") else leaf
 
 
 def analyse(ops, outs):
@@ -252,6 +303,11 @@ def analyse(ops, outs):
             codec = f[1]
         elif f[0] == "adv" and o == "ok":
             now = max(now, int(f[1]))
+        elif f[0] == "mint" and o.startswith("minted "):
+            t = o.split(" ")
+            if len(t) == 3 and t[1] != "none":
+                u, key = t[2].rsplit(",", 1)
+                jar.append({"server": u, "key": key, "leaf": minter(f[1]), "t": now, "foreign": True})
         elif f[0] in ("upsert", "remove"):
             # the generator always lists the pool after a change; until then membership is unknown
             if o == "ok":
@@ -282,11 +338,17 @@ def analyse(ops, outs):
             elif entry is not None and pool is not None and entry["key"] is not None:
                 leaf = entry["leaf"]
                 aes = leaf.startswith("aes:")
+                if family(leaf) not in set(family(x) for x in cur_leaves):
+                    # minted by a codec this balancer does not have (another salt, another key, another encoding):
+                    # for this balancer the value is a forgery
+                    surely_bad = True
                 if tam:
                     if aes:
                         surely_bad = True      # a sealed value that was altered in any way is a forgery
                 else:
                     member = [u for u, (_, key) in pool.items() if key == entry["key"]]
+                    if entry["server"] in member:
+                        member = [entry["server"]]      # the very server the cookie was issued for
                     in_pool = bool(member)
                     if aes:
                         key, ttl = leaf.split(":")[1], int(leaf.split(":")[2])
@@ -317,8 +379,8 @@ def analyse(ops, outs):
                 if must_pin is not None and served != must_pin:
                     recs.append(("raw-sanitised" if rawdrop else "unpinned",
                                  {"server": entry["server"], "leaf": entry["leaf"],
-                                  "msg": "%sunpinned: cookie issued for %s by codec %s (session codec now %s) was routed to %s while %s is in the pool" % (
-                                      tag, entry["server"], entry["leaf"], codec, served, entry["server"])}))
+                                  "msg": "%sunpinned: cookie issued for %s by codec %s (session codec now %s) was routed to %s while its server %s is in the pool" % (
+                                      tag, entry["server"], entry["leaf"], codec, served, must_pin)}))
                 if surely_bad and setc == "none":
                     recs.append(("raw-sanitised" if (rawdrop and surely_bad == "stale") else "no-fresh-cookie",
                                  {"server": entry["server"] if entry else "", "leaf": entry["leaf"] if entry else "",
